@@ -156,7 +156,9 @@ func (h *Headers) Serialize(frh *FrameHeader) {
 		// prepend stream and weight to rawHeaders
 		h.rawHeaders = append(h.rawHeaders, 0, 0, 0, 0, 0)
 		copy(h.rawHeaders[5:], h.rawHeaders)
-		http2utils.Uint32ToBytes(h.rawHeaders[0:4], frh.stream)
+		// The dependency, not the stream the frame is sent on: a stream that
+		// depends on itself is a protocol error at the receiver.
+		http2utils.Uint32ToBytes(h.rawHeaders[0:4], h.stream)
 		h.rawHeaders[4] = h.weight
 	}
 
